@@ -216,7 +216,13 @@ def rule_block(ctx, repo):
     iv = norm(lp.target.elts[0]) if isinstance(lp.target, ast.Tuple) else None
     r.check(it in ('%s.vtx' % blk, 'enumerate(%s.vtx)' % blk), 'per-tx-loop:all-transactions', common.site_of(fi, lp), 'ranges over every transaction',
             'the per-transaction loop ranges over `%s`: CheckTransaction, the duplicate-txid test and the sigop count skip part of the block (the coinbase must be checked too)' % it)
-    lg = [(canon_guard(n.test, repo, fi.module), n) for n in ast.walk(lp) if isinstance(n, ast.If)]
+    lg_all = [(canon_guard(n.test, repo, fi.module), n) for n in ast.walk(lp) if isinstance(n, ast.If)]
+    raising_ids = {id(n) for g, cls, n in gs}
+    # only a test whose branch always raises refuses anything
+    lg = [(g, n) for g, n in lg_all if id(n) in raising_ids]
+    for g, n in lg_all:
+        if id(n) not in raising_ids and not any(isinstance(x, ast.If) for b_ in n.body for x in ast.walk(b_)) and not any(isinstance(x, (ast.Assign, ast.AugAssign, ast.Call)) for b_ in n.body + n.orelse for x in ast.walk(b_)):
+            r.violated('refuses:%s' % g[:40], common.site_of(fi, n), 'CheckBlock tests `%s` in the per-transaction loop and then refuses nothing (the branch does not raise)' % g, sure=True)
     from ..rules import equiv as _eq
     second_cb = [g for g, n in lg if iv is not None and _eq(g, '%s > 0 and %s.is_coinbase()' % (iv, tv), domain={iv: (0, None)}) is True]
     r.check(bool(second_cb) and it.startswith('enumerate'), 'no-other-coinbase', common.site_of(fi, lp), 'any later coinbase is refused',
@@ -237,7 +243,12 @@ def rule_block(ctx, repo):
     if len(mk) != 1:
         r.violated('merkle-section', fi.site, 'no `if fCheckMerkleRoot:` section')
         return
-    mg = [(canon_guard(n.test, repo, fi.module), n) for n in ast.walk(mk[0]) if isinstance(n, ast.If) and n is not mk[0]]
+    mg_all = [(canon_guard(n.test, repo, fi.module), n) for n in ast.walk(mk[0]) if isinstance(n, ast.If) and n is not mk[0]]
+    for g, n in mg_all:
+        if id(n) not in raising_ids and not any(isinstance(x, ast.If) for b_ in n.body for x in ast.walk(b_)) and not any(isinstance(x, (ast.Assign, ast.AugAssign, ast.Call)) for b_ in n.body + n.orelse for x in ast.walk(b_)):
+            r.violated('refuses:%s' % g[:40], common.site_of(fi, n), 'CheckBlock tests `%s` in the merkle section and then refuses nothing (the branch does not raise)' % g, sure=True)
+    # section guards (which contain further tests) and raising guards
+    mg = [(g, n) for g, n in mg_all if id(n) in raising_ids or any(isinstance(x, ast.If) for b_ in n.body for x in ast.walk(b_))]
     texts = [g for g, n in mg]
     r.check(has(texts, '%s.hashMerkleRoot != %s.calc_merkle_root()' % (blk, blk)), 'merkle-root', common.site_of(fi, mk[0]), 'declared root must equal the computed root', 'merkle comparison missing: %s' % texts)
     r.check(has(texts, 'len(%s.vWitnessMerkleTree)' % blk), 'witness-section', common.site_of(fi, mk[0]), 'commitment checked whenever any witness data is present', 'no `if len(block.vWitnessMerkleTree):` section')
